@@ -175,7 +175,11 @@ impl GraphInline {
                 if !self.is_ref() && text.eq_ignore_ascii_case(url) {
                     format!("<{}>", url)
                 } else if self.is_ref() {
-                    format!("[{}]({}{})", text, url, options.refs_extension)
+                    // the url may already carry the configured extension: do not append it a second time
+                    let base = url
+                        .strip_suffix(options.refs_extension.as_str())
+                        .unwrap_or(url);
+                    format!("[{}]({}{})", text, base, options.refs_extension)
                 } else {
                     format!("[{}]({})", text, url)
                 }
